@@ -130,6 +130,7 @@ extern "C" void vp_main() {
   setVec(h.m_response.m_data, rs, rl);
   h.m_crc = vp_nondet_u8(); h.m_escape = vp_nondet_u8(); h.m_crcValid = vp_nondet_bool(); h.m_repeat = vp_nondet_bool();
   h.m_nextSendPos = vp_nondet_u8();
+  h.m_currentAnswering = vp_nondet_bool();   // may be left set in noSignal (rel_bus.h)
   h.m_remainLockCount = vp_nondet_u8();
   h.m_lockCount = vp_nondet_u8();
   h.m_masterCount = vp_nondet_u8();
